@@ -240,6 +240,13 @@ func init() {
 		runs = append(runs, RunSpec{Name: "huge-values", Sc: scHuge(paramSet("0.1", "0.001"), d-2, b-1, 2), Oracles: o, Mon: MonFlags{Vol: true}})
 		runs = append(runs, priceFractionsRun(o, MonFlags{Vol: true}, d-1, b, m))
 		runs = append(runs, priceUpdateRejectedRun(o, MonFlags{Vol: true}, d-1, b, m))
+		{
+			// block times carry 100 ms, promotion windows end at .9 s: the window is still open in the second in which it ends
+			sc := withFunds(scPrice(paramSet("0.1", "0.001"), "p4tms", "p1", []Template{tRep2, tInf}, AlphaOpts{RespKinds: []string{"ok"},
+				BindOps: []Action{actUpdate("a", "P1", "O1", 0, "p4tms", 0), actUpdate("a", "P1", "O1", 0, "p2", 0)}}, d-1, b, m), 30, 5)
+			sc.SubSecondMs, sc.Name = 100, sc.Name+"+sub-second block times"
+			runs = append(runs, RunSpec{Name: "price-sub-second-times", Sc: sc, Oracles: o, Mon: MonFlags{Vol: true}})
+		}
 		// block times that advance by three seconds at once: a whole promotion window can lie between two blocks
 		runs = append(runs, RunSpec{Name: "price-time-jumps", Sc: timeJumps(withFunds(scPrice(paramSet("0.1", "0.001"), "p4t", "p1t", []Template{tRep2, tInf}, AlphaOpts{RespKinds: []string{"ok"}}, d-1, b, m), 30, 5)), Oracles: o, Mon: MonFlags{Vol: true}})
 		runs = append(runs, runsOf(lifeRuns(tier), o, MonFlags{Vol: true})...)
@@ -360,6 +367,7 @@ func init() {
 			{Name: "fees-provider-lengths", Sc: scFeesLengths(paramSet("0.1", "0.001"), d-1, b, m), Oracles: o},
 			{Name: "fees-tax-zero", Sc: scFees(paramSet("0", "0.001"), false, d-1, b, m-1), Oracles: o},
 			{Name: "fees-restart", Sc: restartable(scFees(paramSet("0.1", "0.001"), true, d-1, b+1, m-1)), Oracles: o},
+			{Name: "many-providers-of-one-owner", Sc: scManyProviders(paramSet("0.1", "0.001"), 4, 2, 3), Oracles: o, Conform: 4},
 			{Name: "fees-provider-lengths-restart", Sc: restartable(scFeesLengths(paramSet("0.1", "0.001"), d-1, b+1, m-1)), Oracles: o}}
 		runs = append(runs, runsOf(lifeRuns(tier), o, MonFlags{}, "life-main", "life-control", "mod-main", "life-restart", "fx-main")...)
 		return runs
